@@ -517,8 +517,11 @@ impl World {
         }
         out.count("tracker_checks");
         // C14, region level: the serialized tracker and every region allocator, for the Lean model
-        // of region.rs (`Redb.Region.TrackerSound`, evaluated by the driver on the decoded state)
-        if self.focus == "c14" {
+        // of region.rs (`Redb.Region.TrackerSound`, evaluated by the driver on the decoded state).
+        // Every state of the first 6000 of a run (the whole quick tier), then every 16th: a line
+        // is 8-27 kB and takes the driver about 6 ms (the thorough tier has about 83000 states).
+        let nth = out.counters.get("tracker_checks").copied().unwrap_or(0);
+        if self.focus == "c14" && (nth <= 6000 || nth % 16 == 0) {
             let mut l = format!("rg state {} {}", snap.mem.region_allocators.len(), crate::out::hex(&snap.mem.region_tracker));
             for bytes in &snap.mem.region_allocators {
                 l.push(' ');
